@@ -47,14 +47,14 @@ pub fn thread_sets(pool: &[Vec<Op>], k: usize, max_total: usize) -> Vec<Vec<Vec<
 
 fn atomic_of(k: &K) -> Option<usize> {
     match *k {
-        K::Load { a, .. } | K::Store { a, .. } | K::Swap { a, .. } | K::FetchAdd { a, .. } | K::Cas { a, .. } | K::UnsyncLoad { a } | K::WithMut { a } | K::Await { a, .. } => Some(a),
+        K::Load { a, .. } | K::Store { a, .. } | K::Swap { a, .. } | K::FetchAdd { a, .. } | K::Cas { a, .. } | K::UnsyncLoad { a } | K::WithMut { a } | K::Await { a, .. } | K::AwaitSpun { a, .. } => Some(a),
         _ => None,
     }
 }
 
 fn set_atomic(k: &mut K, n: usize) {
     match k {
-        K::Load { a, .. } | K::Store { a, .. } | K::Swap { a, .. } | K::FetchAdd { a, .. } | K::Cas { a, .. } | K::UnsyncLoad { a } | K::WithMut { a } | K::Await { a, .. } => *a = n,
+        K::Load { a, .. } | K::Store { a, .. } | K::Swap { a, .. } | K::FetchAdd { a, .. } | K::Cas { a, .. } | K::UnsyncLoad { a } | K::WithMut { a } | K::Await { a, .. } | K::AwaitSpun { a, .. } => *a = n,
         _ => {}
     }
 }
@@ -306,7 +306,7 @@ pub fn asc_sentinels() -> Vec<Program> {
 /// 5 chan, 6 cell
 fn obj_refs(k: &mut K) -> Vec<(u8, &mut usize)> {
     match k {
-        K::Load { a, .. } | K::Store { a, .. } | K::Swap { a, .. } | K::FetchAdd { a, .. } | K::Cas { a, .. } | K::UnsyncLoad { a } | K::WithMut { a } | K::Await { a, .. } => vec![(0, a)],
+        K::Load { a, .. } | K::Store { a, .. } | K::Swap { a, .. } | K::FetchAdd { a, .. } | K::Cas { a, .. } | K::UnsyncLoad { a } | K::WithMut { a } | K::Await { a, .. } | K::AwaitSpun { a, .. } => vec![(0, a)],
         K::Lock { m } | K::TryLock { m } | K::Unlock { m } => vec![(1, m)],
         K::Read { l } | K::TryRead { l } | K::UnlockR { l } | K::Write { l } | K::TryWrite { l } | K::UnlockW { l } => vec![(2, l)],
         K::Wait { cv, m } => vec![(3, cv), (1, m)],
@@ -1653,6 +1653,7 @@ pub fn spin_programs(tier: &str) -> Vec<Program> {
         vec![],
         vec![],
     ));
+    v.extend(spin_obs_family(tier != "quick"));
     // the same loops spinning with `hint::spin_loop()` instead of `thread::yield_now()`
     let step = if tier == "quick" { 4 } else { 1 };
     let hinted: Vec<Program> = v
@@ -2371,7 +2372,9 @@ pub fn lock_nested_family(with_third: bool) -> Vec<Program> {
             if (ka < 4) != (kb < 4) {
                 continue;
             }
-            let thirds: Vec<Option<usize>> = if with_third { std::iter::once(None).chain((0..6).filter(|k| (*k < 4) == (ka < 4)).map(Some)).collect() } else { vec![None] };
+            // the third thread runs a plain section: every kind, or only the blocking exclusive
+            // one (write / lock) in the reduced variant
+            let thirds: Vec<Option<usize>> = if with_third { std::iter::once(None).chain((0..6).filter(|k| (*k < 4) == (ka < 4)).map(Some)).collect() } else { vec![None, Some(if ka < 4 { 1 } else { 4 })] };
             for third in thirds {
                 for pairing in 0..3 {
                     let name = format!("LOCK-nested-{}{}-{}-{:?}", ka, kb, ["chan", "notify", "join"][pairing], third);
@@ -2752,6 +2755,135 @@ pub fn cell_nested_family() -> Vec<Program> {
             }
             g.push(K::CellEnd { c: 0, w: w1 }.into());
             out.push(with_main("CELL-nested-flag", objs.clone(), vec![], vec![g, vec![st(0, 1, Sc)]], vec![], vec![]));
+        }
+    }
+    out
+}
+
+/// LIT-fence-multi: an acquire fence after *several* relaxed loads must acquire every release
+/// store those loads read. Two writers publish a payload each (release store, or release fence +
+/// relaxed store) on the same flag or on two flags; the reader loads the flag(s) twice with
+/// relaxed / acquire loads, fences (Acquire / AcqRel / SeqCst / nothing) after or between the
+/// loads and then reads both payloads.
+pub fn lit_fence_multi(full: bool) -> Vec<Program> {
+    let mut out = vec![];
+    let mut seen = HashSet::new();
+    // locations: 0 = payload 1, 1 = payload 2, 2 = flag (3 = second flag)
+    for two_flags in [false, true] {
+        let (f1, f2) = (2, if two_flags { 3 } else { 2 });
+        let nat = if two_flags { 4 } else { 3 };
+        for wkind in 0..2 {
+            let w = |p: usize, f: usize, v: u64| -> Vec<Op> {
+                if wkind == 0 {
+                    vec![st(p, 1, Rlx), st(f, v, Rel)]
+                } else {
+                    vec![st(p, 1, Rlx), fence(Rel), st(f, v, Rlx)]
+                }
+            };
+            let fences: Vec<Option<MO>> = if full { vec![Some(Acq), Some(AcqRel), Some(Sc), None] } else { vec![Some(Acq), Some(Sc), None] };
+            for fk in &fences {
+                for between in [false, true] {
+                    if fk.is_none() && between {
+                        continue;
+                    }
+                    let lmos: Vec<(MO, MO)> = if full { vec![(Rlx, Rlx), (Acq, Rlx), (Rlx, Acq)] } else { vec![(Rlx, Rlx), (Acq, Rlx)] };
+                    for (m1, m2) in lmos {
+                        let mut r: Vec<Op> = vec![ld(f1, m1)];
+                        if between {
+                            r.push(fence(fk.unwrap()));
+                        }
+                        r.push(ld(f2, m2));
+                        if !between {
+                            if let Some(k) = fk {
+                                r.push(fence(*k));
+                            }
+                        }
+                        r.push(ld(0, Rlx));
+                        r.push(ld(1, Rlx));
+                        // two writers / one writer doing both publications
+                        let two = vec![w(0, f1, 1), w(1, f2, 2), r.clone()];
+                        let one = vec![w(0, f1, 1).into_iter().chain(w(1, f2, 2)).collect(), r.clone()];
+                        for ch in [two, one] {
+                            let p = with_main("LIT-fence-multi", atomics(nat), vec![], ch, vec![], vec![]);
+                            if seen.insert(p.text()) {
+                                out.push(p);
+                            }
+                        }
+                    }
+                }
+            }
+        }
+    }
+    out
+}
+
+/// SPIN-obs: what the spinner can observe *around* its loop. The setter stores x = 1, raises the
+/// flag, stores x = 2; the spinner reads x, spins on the flag (the result says whether it had to
+/// spin) and reads x again. After a yield the spinner must be able to resume at every later
+/// scheduling point of the setter, e.g. exit the loop before x = 2.
+pub fn spin_obs_family(full: bool) -> Vec<Program> {
+    let mut out = vec![];
+    // all SeqCst: loom's SeqCst accesses of one location read the newest SeqCst store, so the
+    // second read of x tells exactly whether the loop was left before `x = 2` ran (with weaker
+    // orderings a stale read gives the same value and hides a scheduling restriction)
+    let mut variants: Vec<(MO, MO, MO, MO, bool)> = vec![(Sc, Sc, Sc, Sc, false), (Sc, Sc, Sc, Sc, true)];
+    // (x stores, flag store, flag load, x loads, rmw probe)
+    variants.push((Rlx, Rel, Acq, Rlx, false));
+    if full {
+        variants.push((Rlx, Rlx, Rlx, Rlx, false));
+        variants.push((Rlx, Sc, Sc, Rlx, false));
+        variants.push((Rel, Rel, Acq, Acq, false));
+    }
+    for (xs, fs, fl, xl, rmw) in variants {
+        let setter = vec![st(1, 1, xs), st(0, 1, fs), st(1, 2, xs)];
+        let spinner: Vec<Op> = vec![ld(1, xl), K::AwaitSpun { a: 0, mo: fl, want: 1 }.into(), if rmw { fadd(1, 0, xl) } else { ld(1, xl) }];
+        out.push(with_main("SPIN-obs", atomics(2), vec![], vec![setter.clone(), spinner.clone()], vec![], vec![ld(1, xl)]));
+        out.push(with_main("SPIN-obs-main", atomics(2), vec![], vec![setter.clone()], spinner, vec![]));
+    }
+    let ld_os: &[MO] = if full { &[Sc, Acq, Rlx] } else { &[Sc] };
+    // two setters: the flag is raised by one thread, the data written by another
+    for &la in ld_os {
+        let (so, fo) = if la == Sc { (Sc, Sc) } else { (Rlx, Rel) };
+        let spinner: Vec<Op> = vec![ld(1, la), K::AwaitSpun { a: 0, mo: la, want: 1 }.into(), ld(1, la)];
+        out.push(with_main("SPIN-obs-2w", atomics(2), vec![], vec![vec![st(0, 1, fo)], vec![st(1, 1, so), st(1, 2, so)], spinner], vec![], vec![]));
+    }
+    out
+}
+
+/// CHAN2: two channels, request / response. T1 sends on A and receives on B, T2 receives on A
+/// and sends on B; every pair of op sequences up to `maxlen` each (many of them deadlock, which
+/// must be reported exactly). State of one channel must not leak into the other.
+pub fn chan2_family(maxlen: usize, main_is_t1: bool) -> Vec<Program> {
+    let a1: Vec<Op> = vec![K::Send { ch: 0, v: 1 }.into(), K::Recv { ch: 1 }.into(), K::TryRecv { ch: 1 }.into()];
+    let a2: Vec<Op> = vec![K::Recv { ch: 0 }.into(), K::TryRecv { ch: 0 }.into(), K::Send { ch: 1, v: 1 }.into()];
+    let number = |mut ops: Vec<Op>, base: u64| -> Vec<Op> {
+        let mut n = base;
+        for op in ops.iter_mut() {
+            if let K::Send { v, .. } = &mut op.k {
+                n += 1;
+                *v = n;
+            }
+        }
+        ops
+    };
+    let p1: Vec<Vec<Op>> = seqs(&a1, maxlen).into_iter().map(|s| number(s, 10)).collect();
+    let p2: Vec<Vec<Op>> = seqs(&a2, maxlen).into_iter().map(|s| number(s, 20)).collect();
+    let objs = Objs { chans: 2, ..Default::default() };
+    let mut out = vec![];
+    for t1 in &p1 {
+        // something must cross in both directions, otherwise one channel is unused
+        if !t1.iter().any(|o| matches!(o.k, K::Send { .. })) {
+            continue;
+        }
+        for t2 in &p2 {
+            if !t2.iter().any(|o| matches!(o.k, K::Send { .. })) || !t2.iter().any(|o| matches!(o.k, K::Recv { .. } | K::TryRecv { .. })) {
+                continue;
+            }
+            if main_is_t1 {
+                out.push(with_main("CHAN2-main", objs.clone(), vec![], vec![t2.clone()], t1.clone(), vec![]));
+            } else {
+                out.push(with_main("CHAN2", objs.clone(), vec![], vec![t1.clone(), t2.clone()], vec![], vec![]));
+            }
         }
     }
     out
